@@ -1,53 +1,591 @@
 """Per-property plans: which models and which traces decide which property, per tier."""
-import json, os, subprocess, sys
+import glob, json, os, subprocess, sys, time
+from concurrent.futures import ThreadPoolExecutor
 import engine
-from engine import Check, run_model, build_harness, ToolError
+from engine import Check, run_model, build_harness, ToolError, WORK, REPO, log
 
-LI_INV = ["SplitInverse", "ErrorKind", "ValueOK", "NothingDropped", "RoundTrip", "LocaleAgrees", "EmitCase"]
+ALL = ("likelysubtags", "serde", "macros")
 
 ASSUME_COMMON = [
-    "the TLA+ specification in /verif/spec is the reference; TLC checked it against the property's own laws on the bounded model",
-    "conformance is by replaying every enumerated case through the real API built from /repo's working tree",
-    "inputs outside the bounded alphabets/depths are covered only by the random trace drivers",
+    "the TLA+ specification in /verif/spec is the reference; TLC checked it against the property's own laws on every state of the bounded models listed under coverage.models",
+    "conformance = every enumerated case replayed through the real public API (built from /repo's working tree) and every recorded event accepted by Trace.tla",
+    "inputs outside the bounded alphabets/depths are reached only by the seeded random drivers",
 ]
 
 
-def m_langid(c, binp, tier, tag=""):
-    """language-identifier token sequences (C02, C13, C19, C01, C04, C05)"""
-    if tier == "quick":
-        runs = [("li-full3", dict(Depth=3, FullDepth=3, Small=False, Emit=True))]
-    else:
-        runs = [("li-full3", dict(Depth=3, FullDepth=3, Small=False, Emit=True)),
-                ("li-pruned4", dict(Depth=4, FullDepth=2, Small=False, Emit=True)),
-                ("li-small6", dict(Depth=6, FullDepth=3, Small=True, Emit=True))]
+def data_env():
+    """CLDR data for Cldr.tla: the likely-subtags file as it is; the layout files concatenated."""
+    d = os.path.join(WORK, "data")
+    os.makedirs(d, exist_ok=True)
+    lay = os.path.join(d, "layout.ndjson")
+    files = sorted(glob.glob(os.path.join(REPO, "unic-langid-impl/data/cldr-misc-full/main/*/layout.json")))
+    if not files:
+        raise ToolError("no CLDR layout files under %s" % REPO)
+    with open(lay, "w") as f:
+        for p in files:
+            f.write(json.dumps(json.load(open(p))) + "\n")
+    env = {"VERIF_LIKELY": os.path.join(REPO, "unic-langid-impl/data/likelySubtags.json"), "VERIF_LAYOUT": lay}
+    os.environ.update(env)
+    return env
+
+
+# ------------------------------------------------------------------------------------------------
+# model steps
+# ------------------------------------------------------------------------------------------------
+LI_INV = ["SplitInverse", "ErrorKind", "ValueOK", "NothingDropped", "RoundTrip", "LocaleAgrees", "EmitCase"]
+LOC_INV = ["SplitInverse", "ZoneDefined", "ValueOK", "RoundTrip", "NothingDropped", "IdIsPrefixParse", "EmitCase"]
+SUB_INV = ["AsciiOnly", "CanonFix", "CaseBlind", "Disjoint", "RawRoundTrip", "EmitCase"]
+OBJ_INV = ["TypeOK", "RoundTrip", "ExtRoundTrip", "ErrorsAndGettersArePure", "ReparseIsNoOp", "EmitHist"]
+MATCH_INV = ["Definition", "NoRangeIsEquality", "Symmetric", "Reflexive", "Monotone", "PrivateRule", "EmitCase"]
+CMP_INV = ["OrderTotal", "OrderTransitive", "TextInjective", "AbsentSortsFirst", "EmitCase"]
+CLDR_INV = ["KeyMaximizesToValue", "Laws", "DirOK", "EmitCase"]
+LAWS_INV = ["C07", "C08", "C08Longer", "KeysMaximizeToValues", "DataIndependent"]
+
+
+def m_langid(c, binp, tier, light=False):
+    runs = [("li-full3", dict(Depth=3, FullDepth=3, Small=False, Emit=True))]
+    if light:
+        runs = [("li-full2", dict(Depth=2, FullDepth=2, Small=False, Emit=True)),
+                ("li-small4", dict(Depth=4, FullDepth=2, Small=True, Emit=True))]
+    if tier == "thorough":
+        runs += [("li-pruned4", dict(Depth=4, FullDepth=2, Small=False, Emit=True)),
+                 ("li-small6", dict(Depth=6, FullDepth=3, Small=True, Emit=True))]
     for name, consts in runs:
-        c.add_model(run_model("%s-%s%s" % (c.prop, name, tag), "MC_LangId", consts, LI_INV, binp=binp, workers=10))
+        c.add_model(run_model("%s-%s" % (c.prop, name), "MC_LangId", consts, LI_INV, binp=binp, workers=10))
+
+
+def m_locale(c, binp, tier, modes=("loc", "ext"), light=False):
+    for mode in modes:
+        if light:
+            runs = [("%s-small4" % mode, dict(Depth=4, FullDepth=2, Small=True, Emit=True, Mode=mode))]
+        else:
+            runs = [("%s-d4" % mode, dict(Depth=4, FullDepth=2, Small=False, Emit=True, Mode=mode)),
+                    ("%s-small5" % mode, dict(Depth=5, FullDepth=2, Small=True, Emit=True, Mode=mode))]
+        if tier == "thorough":
+            runs += [("%s-d5" % mode, dict(Depth=5, FullDepth=2, Small=False, Emit=True, Mode=mode))]
+            if mode == "loc":
+                runs += [("%s-small7" % mode, dict(Depth=7, FullDepth=2, Small=True, Emit=True, Mode=mode))]
+        for name, consts in runs:
+            c.add_model(run_model("%s-%s" % (c.prop, name), "MC_Locale", consts, LOC_INV, binp=binp, workers=12, timeout=7200))
+
+
+def m_subtags(c, binp, tier, light=False):
+    runs = [("sub-boundary4", dict(MaxLen=4 if not light else 3, FullLen=4, Alpha="boundary", Emit=True)),
+            ("sub-reduced%d" % (7 if tier == "quick" else 9), dict(MaxLen=7 if tier == "quick" else 9, FullLen=2, Alpha="reduced", Emit=True))]
+    if tier == "thorough":
+        runs += [("sub-all3", dict(MaxLen=3, FullLen=3, Alpha="all", Emit=True))]
+    for name, consts in runs:
+        c.add_model(run_model("%s-%s" % (c.prop, name), "MC_Subtags", consts, SUB_INV, binp=binp, workers=12, timeout=7200))
+
+
+def m_object(c, binp, tier, edges=True, hist=True, full=True, parts=("U", "T", "X", "Id")):
+    if edges:
+        for part in parts:
+            for start in (("default", "parsed") if tier == "thorough" or part != "U" else ("default",)):
+                c.add_model(run_model("%s-obj-edges-%s-%s" % (c.prop, part, start), "MC_Object",
+                                      dict(Part=part, Mode="edges", K=0, Start=start), OBJ_INV, binp=binp, workers=10,
+                                      expect_cases="transitions"))
+    if hist:
+        ks = {"quick": {"U": 2, "T": 2, "X": 3, "Id": 2}, "thorough": {"U": 2, "T": 3, "X": 4, "Id": 3}}[tier]
+        for part in parts:
+            c.add_model(run_model("%s-obj-hist-%s" % (c.prop, part), "MC_Object",
+                                  dict(Part=part, Mode="hist", K=ks[part], Start="parsed"), OBJ_INV, binp=binp, workers=10,
+                                  expect_cases="distinct-1"))
+    if full:
+        c.add_model(run_model("%s-obj-product" % c.prop, "MC_Object", dict(Part="All", Mode="check", K=0, Start="default"),
+                              OBJ_INV[:-1], workers=14, replay=False))
+        n, depth = (20, 30) if tier == "quick" else (400, 60)
+        c.add_model(run_model("%s-obj-sim" % c.prop, "MC_Object", dict(Part="All", Mode="sim", K=depth, Start="parsed"),
+                              OBJ_INV, binp=binp, workers=4, simulate="num=%d" % n, expect_cases=None,
+                              env_extra={"VERIF_SEED": str(c.seed)}, extra_args=["-depth", str(depth + 2), "-seed", str(c.seed)]))
+
+
+def m_matches(c, binp, tier, kind="match"):
+    c.add_model(run_model("%s-matches-%s" % (c.prop, kind), "MC_Matches", {"Kind": kind},
+                          MATCH_INV if kind == "match" else CMP_INV, binp=binp, workers=10, expect_cases="distinct-108"))
+
+
+def m_cmp(c, binp, tier):
+    n = 1 if tier == "quick" else 2
+    routes = {1: 25, 2: 601}[n]
+    c.add_model(run_model("%s-cmp-routes%d" % (c.prop, n), "MC_Cmp", {"MaxLen": n},
+                          ["TextInjective", "ValuesOK", "AllRouteOpsSucceed", "EmitCase"], binp=binp, workers=12,
+                          expect_cases="distinct-%d" % routes))
+
+
+def m_meta(c, binp, tier):
+    runs = [("meta-AB2", {"MaxSteps": 2, "SeedSet": "AB"})]
+    if tier == "thorough":
+        runs += [("meta-AB3", {"MaxSteps": 3, "SeedSet": "AB"}), ("meta-C2", {"MaxSteps": 2, "SeedSet": "C"})]
+    for name, consts in runs:
+        c.add_model(run_model("%s-%s" % (c.prop, name), "MC_Meta", consts, ["SplitAgrees"], properties=["ParseInvariant"],
+                              binp=binp, workers=10, expect_cases="transitions"))
+
+
+def m_parts(c, binp, tier):
+    c.add_model(run_model("%s-parts" % c.prop, "MC_Parts", {"MaxV": 4 if tier == "quick" else 5},
+                          ["EqualsParse", "ValueOK", "PartsRoundTrip", "OrderIrrelevant", "EmitCase"], binp=binp, workers=10))
+
+
+def m_laws(c, tier):
+    runs = [("laws-1x2x1-consistent", {"Universe": "1x2x1", "Shape": "consistent"}),
+            ("laws-1x2x1-any", {"Universe": "1x2x1", "Shape": "any"})]
+    if tier == "thorough":
+        runs += [("laws-1x2x2-consistent", {"Universe": "1x2x2", "Shape": "consistent"}),
+                 ("laws-2x2x1-consistent", {"Universe": "2x2x1", "Shape": "consistent"})]
+    for name, consts in runs:
+        c.add_model(run_model("%s-%s" % (c.prop, name), "MC_LikelyLaws", consts, LAWS_INV, workers=14, replay=False, timeout=7200))
+
+
+def m_cldr(c, binp, tier, modes=("keys", "closure"), tag=""):
+    data_env()
+    for mode in modes:
+        c.add_model(run_model("%s-cldr-%s%s" % (c.prop, mode, tag), "MC_Cldr", {"Mode": mode}, CLDR_INV, binp=binp, workers=12,
+                              expect_cases="distinct" if mode == "keys" else None))
+
+
+# ------------------------------------------------------------------------------------------------
+# trace steps (impl -> spec)
+# ------------------------------------------------------------------------------------------------
+def traces(c, binp, driver, tier, quick_n=2500, thorough_n=12000, chunks_q=2, chunks_t=12, tag=""):
+    data_env()
+    n = quick_n if tier == "quick" else thorough_n
+    chunks = chunks_q if tier == "quick" else chunks_t
+    d = os.path.join(WORK, "traces")
+    os.makedirs(d, exist_ok=True)
+    jobs = []
+    for k in range(chunks):
+        out = os.path.join(d, "%s-%s%s-%d.ndjson" % (c.prop, driver, tag, k))
+        info = engine.run_driver(binp, driver, c.seed * 1000 + k, n, out)
+        jobs.append((k, out, info))
+    def one(job):
+        k, out, info = job
+        r = engine.validate_trace("%s-trace-%s%s-%d" % (c.prop, driver, tag, k), out)
+        r["driver"] = info
+        return r
+    with ThreadPoolExecutor(max_workers=min(len(jobs), 12)) as ex:
+        for r in ex.map(one, jobs):
+            c.add_trace(r)
+            if len(c.samples) < 8:
+                try:
+                    first = open(os.path.join(d, "%s-%s%s-0.ndjson" % (c.prop, driver, tag))).readline()
+                    c.samples.append({"trace_event": first[:400]})
+                except Exception:
+                    pass
+
+
+# ------------------------------------------------------------------------------------------------
+# the checks
+# ------------------------------------------------------------------------------------------------
+def C01(tier, seed):
+    c = Check("C01", tier, seed)
+    binp = build_harness(ALL)
+    m_langid(c, binp, tier)
+    m_locale(c, binp, tier)
+    m_subtags(c, binp, tier, light=True)
+    m_object(c, binp, tier, edges=True, hist=False, full=False)
+    m_cldr(c, binp, tier, modes=("closure",))
+    traces(c, binp, "parse", tier)
+    traces(c, binp, "hist", tier, quick_n=1500)
+    traces(c, binp, "sub", tier, quick_n=1500)
+    return c.finish(rule="every text-accepting entry point on every enumerated token/byte sequence and operation argument (valid, boundary, invalid) plus seeded random/mutated inputs; outcome must be ok or err (panic location, CPU-time hang and abnormal exit are recorded as data); non-trivial = inputs that got past the first token / operations actually applied",
+                    assumptions=ASSUME_COMMON + ["stack overflow / abort are detected as an abnormal exit of the replay process"], exhaustive=False)
 
 
 def C02(tier, seed):
     c = Check("C02", tier, seed)
-    binp = build_harness()
+    binp = build_harness(ALL)
     m_langid(c, binp, tier)
-    return c.finish(rule="every token sequence over the boundary token alphabet up to the depth bound; non-trivial = accepted by the language-identifier parser",
+    traces(c, binp, "parse", tier)
+    return c.finish(rule="every token sequence over the 67-token boundary alphabet up to the depth bound through from_bytes/FromStr/canonicalize, verdict + error kind + all fields + text compared with ParseLI; non-trivial = accepted identifiers",
                     assumptions=ASSUME_COMMON, exhaustive=True)
 
 
-PLANS = {"C02": C02}
+def C03(tier, seed):
+    c = Check("C03", tier, seed)
+    binp = build_harness(ALL)
+    m_locale(c, binp, tier)
+    m_langid(c, binp, tier, light=True)
+    traces(c, binp, "parse", tier)
+    return c.finish(rule="every live token sequence over the extension vocabulary (dead prefixes are leaves) through Locale::from_bytes and ExtensionsMap::from_bytes, compared with the zone (accept/either/other/free/reject) and value of ParseLoc; non-trivial = accepted locales",
+                    assumptions=ASSUME_COMMON, exhaustive=True)
+
+
+def C04(tier, seed):
+    c = Check("C04", tier, seed)
+    binp = build_harness(ALL)
+    m_locale(c, binp, tier, modes=("loc",))
+    m_langid(c, binp, tier, light=True)
+    m_parts(c, binp, tier)
+    m_object(c, binp, tier, edges=True, hist=False, full=True, parts=("T", "X", "Id"))
+    traces(c, binp, "parse", tier)
+    traces(c, binp, "hist", tier, quick_n=2000)
+    return c.finish(rule="to_string()/canonicalize() of every value reached by parsing, from_parts and every edge of the mutator machines compared byte for byte with SerLoc of the model value; the spec's canonical text is itself checked to be a strict fixpoint and never longer than the input; trace events re-judge every printed text with the strict recogniser",
+                    assumptions=ASSUME_COMMON, exhaustive=True)
+
+
+def C05(tier, seed):
+    c = Check("C05", tier, seed)
+    binp = build_harness(ALL)
+    m_locale(c, binp, tier, modes=("loc", "ext"), light=(tier == "quick"))
+    m_langid(c, binp, tier, light=True)
+    m_subtags(c, binp, tier, light=True)
+    m_object(c, binp, tier, edges=True, hist=True, full=True, parts=("T", "X", "Id"))
+    traces(c, binp, "hist", tier, quick_n=2000)
+    traces(c, binp, "parse", tier, quick_n=1500)
+    return c.finish(rule="every reached value (parsed, from_parts, after every mutation edge/history) is printed and re-parsed by the real code (Locale, ExtensionsMap, LanguageIdentifier, the four subtags) and must come back equal; on the spec, ParseLoc(SerLoc(v)) = v is an invariant of every model and 'reparse' is a no-op action in every reachable state",
+                    assumptions=ASSUME_COMMON, exhaustive=True)
+
+
+def C06(tier, seed):
+    c = Check("C06", tier, seed)
+    binp = build_harness(ALL)
+    m_cldr(c, binp, tier, modes=("keys", "closure"))
+    traces(c, binp, "likely", tier, quick_n=3000, thorough_n=40000)
+    return c.finish(rule="all 8219 CLDR keys plus the closure (every language x {absent, scripts keyed with it, known others, unknown} x same for regions; und x all scripts x all regions) through likelysubtags::maximize and LanguageIdentifier::maximize; allowed answers computed by Maximize over the table TLC loads from data/likelySubtags.json",
+                    assumptions=ASSUME_COMMON + ["the full 3e8-triple universe is sampled by the random driver, not enumerated"], exhaustive=False)
+
+
+def C07(tier, seed):
+    c = Check("C07", tier, seed)
+    binp = build_harness(ALL)
+    m_laws(c, tier)
+    m_cldr(c, binp, tier, modes=("closure",))
+    traces(c, binp, "hist", tier, quick_n=2500)
+    traces(c, binp, "likely", tier, quick_n=1500)
+    return c.finish(rule="laws (only adds, fills all three, false=>unchanged, idempotent) model-checked for every table over small subtag universes incl. unknown subtags; on the real table every closure triple is run through the library with variants and extensions attached and compared before/after/twice; maximize steps inside random histories are validated by Trace.tla",
+                    assumptions=ASSUME_COMMON, exhaustive=True)
+
+
+def C08(tier, seed):
+    c = Check("C08", tier, seed)
+    binp = build_harness(ALL)
+    m_laws(c, tier)
+    m_cldr(c, binp, tier, modes=("closure",))
+    traces(c, binp, "hist", tier, quick_n=2500)
+    traces(c, binp, "likely", tier, quick_n=1500)
+    return c.finish(rule="minimize laws (meaning preserved, no foreign subtag, first of {l, l-r, l-s}, idempotent, min.max=min, never longer) model-checked for every table over small universes; on the real table every closure triple through likelysubtags::minimize and the method, compared with MinimizeF",
+                    assumptions=ASSUME_COMMON, exhaustive=True)
+
+
+def C09(tier, seed):
+    c = Check("C09", tier, seed)
+    binp = build_harness(ALL)
+    m_meta(c, binp, tier)
+    traces(c, binp, "meta", tier, quick_n=4000)
+    return c.finish(rule="transition system whose actions are the meaning-preserving transformations (separator, case, swap/duplicate variants and attributes, swap keyword/tfield groups, swap -u-/-t-); every transition within the step bound from well-formed and ill-formed seeds is replayed: both texts through both parsers, verdict/value/text must agree; random pairs are judged equivalent by the spec before the implementation is required to agree",
+                    assumptions=ASSUME_COMMON, exhaustive=True)
+
+
+def C10(tier, seed):
+    c = Check("C10", tier, seed)
+    binp = build_harness(ALL)
+    m_object(c, binp, tier, edges=True, hist=True, full=True)
+    traces(c, binp, "hist", tier, quick_n=3000, thorough_n=20000)
+    return c.finish(rule="LocaleObject.tla: every edge of the four component machines (arguments valid/boundary/invalid), every history up to K operations, the full product machine (invariants), simulated long behaviours, and seeded random histories of up to 60 operations from default() and parsed values; result, projection, text and is_empty compared after every step; non-trivial = operations applied",
+                    assumptions=ASSUME_COMMON, exhaustive=True)
+
+
+def C11(tier, seed):
+    c = Check("C11", tier, seed)
+    binp = build_harness(ALL)
+    m_matches(c, binp, tier, "match")
+    traces(c, binp, "hist", tier, quick_n=2000)
+    return c.finish(rule="108 identifiers squared x 9 extension settings x 4 flag pairs through Locale::matches, LanguageIdentifier::matches (also against a Locale via AsRef) and Language::matches; the definition and its laws are invariants of the model",
+                    assumptions=ASSUME_COMMON, exhaustive=True)
+
+
+def C12(tier, seed):
+    c = Check("C12", tier, seed)
+    binp = build_harness(ALL)
+    m_matches(c, binp, tier, "cmp")
+    m_cmp(c, binp, tier)
+    traces(c, binp, "hist", tier, quick_n=3000)
+    return c.finish(rule="all pairs over the 108x3 product domain (==, cmp both ways, hash, == &str, field-by-field order incl. transitivity on the spec) and all pairs of operation routes from default() (same logical value along different routes); random pairs from histories",
+                    assumptions=ASSUME_COMMON, exhaustive=True)
+
+
+def C13(tier, seed):
+    c = Check("C13", tier, seed)
+    binp = build_harness(ALL)
+    m_langid(c, binp, tier)
+    m_locale(c, binp, tier, modes=("loc",))
+    return c.finish(rule="every language-identifier case also through Locale (identical id, no extensions, same text, conversions both ways, AsRef); every accept-zone locale case: id = LanguageIdentifier of the text before the first singleton",
+                    assumptions=ASSUME_COMMON, exhaustive=True)
+
+
+def C14(tier, seed):
+    c = Check("C14", tier, seed)
+    on = build_harness(ALL)
+    off = build_harness(("serde", "macros"))
+    m_cldr(c, on, tier, modes=("dir",), tag="-likely-on")
+    m_cldr(c, off, tier, modes=("dir",), tag="-likely-off")
+    traces(c, on, "likely", tier, quick_n=2000, tag="-on")
+    traces(c, off, "likely", tier, quick_n=2000, tag="-off")
+    return c.finish(rule="all 709 CLDR layout locales and script/language/region probes through character_direction() in both feature configurations (two harness builds); allowed directions derived in TLA+ from the layout files",
+                    assumptions=ASSUME_COMMON, exhaustive=True)
+
+
+def C15(tier, seed):
+    c = Check("C15", tier, seed)
+    binp = build_harness(ALL)
+    m_subtags(c, binp, tier)
+    traces(c, binp, "sub", tier, quick_n=3000)
+    return c.finish(rule="every byte string over the boundary byte alphabet up to length 4, alnum-pruned strings up to length 7/9 (thorough: all 16.8M strings of length <= 3) through from_bytes/FromStr of all four types; verdict, as_str, Display, == &str",
+                    assumptions=ASSUME_COMMON, exhaustive=True)
+
+
+def C17(tier, seed):
+    c = Check("C17", tier, seed)
+    binp = build_harness(ALL)
+    m_parts(c, binp, tier)
+    m_subtags(c, binp, tier)
+    m_locale(c, binp, tier, modes=("loc",), light=True)
+    traces(c, binp, "hist", tier, quick_n=2000)
+    return c.finish(rule="from_parts over every sequence of <= 4/5 variants (any order, repeats, any case) vs parsing the joined string; into_parts/from_parts on every parsed and mutated value incl. the Locale extension string; integer forms of every enumerated valid subtag: expected little-endian packing, unchecked round trip, injectivity over the run",
+                    assumptions=ASSUME_COMMON, exhaustive=True)
+
+
+def C19(tier, seed):
+    c = Check("C19", tier, seed)
+    binp = build_harness(ALL)
+    m_langid(c, binp, tier)
+    return c.finish(rule="every language-identifier case as a JSON string (plain and fully \\u-escaped) through serde_json::from_str and from_value; accepted values serialised and read back; a fixed list of non-string JSON documents",
+                    assumptions=ASSUME_COMMON, exhaustive=True)
+
+
+PLANS = {"C01": C01, "C02": C02, "C03": C03, "C04": C04, "C05": C05, "C06": C06, "C07": C07, "C08": C08, "C09": C09,
+         "C10": C10, "C11": C11, "C12": C12, "C13": C13, "C14": C14, "C15": C15, "C17": C17, "C19": C19}
 
 
 def replay(prop, path):
     """re-run the recorded failing cases through the current build"""
-    binp = build_harness()
+    binp = build_harness(ALL)
     data = json.load(open(path))
     lines = [e["case"] for e in data.get("examples", []) if e.get("case")]
     if not lines:
-        print("replay file has no raw cases (trace mismatch?); see its 'examples'")
+        print("replay file has no raw cases; see its 'examples'")
         return 2
-    p = subprocess.run([binp, "replay", "--out", "/dev/stdout"], input="\n".join(lines) + "\n", text=True, stdout=subprocess.PIPE)
-    print(p.stdout)
-    bad = [l for l in p.stdout.splitlines() if l.startswith("{\"case\"") or '"props"' in l]
-    still = [l for l in bad if prop in json.loads(l).get("props", [])] if bad else []
+    out = os.path.join(WORK, "replay-out.ndjson")
+    p = subprocess.run([binp, "replay", "--out", out], input="\n".join(lines) + "\n", text=True, stdout=subprocess.PIPE)
+    still = []
+    if os.path.exists(out):
+        for l in open(out):
+            d = json.loads(l)
+            print(json.dumps(d)[:1500])
+            if prop in d.get("props", []):
+                still.append(d)
     if still:
         print("VIOLATION property=%s replay=%s" % (prop, path))
         return 1
+    print("replayed %d cases: no disagreement on %s" % (len(lines), prop))
     return 0
+
+
+# ------------------------------------------------------------------------------------------------
+# C18: compiled tables
+# ------------------------------------------------------------------------------------------------
+def _norm_rs(text):
+    import re
+    s = re.sub(r"\s+", "", text)
+    return s.replace(",]", "]").replace(",)", ")")
+
+
+def _consts_as_sets(text):
+    """name -> sorted list of integer literals, for the layout table (the generator's order is a HashSet's)"""
+    import re
+    out = {}
+    for m in re.finditer(r"pub const (\w+): \[u\d+; (\d+)\]\s*=\s*\[([^\]]*)\]", text):
+        nums = sorted(int(x) for x in re.findall(r"\d+", m.group(3)))
+        out[m.group(1)] = (int(m.group(2)), nums)
+    return out
+
+
+def C18(tier, seed):
+    c = Check("C18", tier, seed)
+    binp = build_harness(ALL)
+    data_env()
+    dump = os.path.join(WORK, "data", "tables.ndjson")
+    p = subprocess.run([binp, "tables"], stdout=open(dump, "w"), stderr=subprocess.PIPE)
+    if p.returncode != 0:
+        raise ToolError("table dump failed: %s" % p.stderr.decode()[-500:])
+    r = engine.validate_trace("C18-tables", dump, module="Tables", env_extra={"VERIF_TABLES": dump})
+    c.add_trace(r)
+    c.samples.append({"table_entry": open(dump).readlines()[5][:300]})
+    # supplementary: the repository's own generators, re-run from the working tree
+    env = dict(os.environ, CARGO_TARGET_DIR=os.path.join(WORK, "target-gen"), CARGO_NET_OFFLINE="true")
+    cwd = os.path.join(REPO, "unic-langid-impl")
+    gen = {}
+    for b in ("generate_likelysubtags", "generate_layout"):
+        g = subprocess.run(["cargo", "run", "--offline", "--release", "--features", "binary", "--bin", b], cwd=cwd, env=env,
+                           stdout=subprocess.PIPE, stderr=subprocess.PIPE, text=True)
+        if g.returncode != 0:
+            raise ToolError("generator %s failed: %s" % (b, g.stderr[-1500:]))
+        gen[b] = g.stdout
+    checked_in = open(os.path.join(cwd, "src/likelysubtags/tables.rs")).read()
+    if _norm_rs(gen["generate_likelysubtags"]) != _norm_rs(checked_in):
+        c.dis.append({"props": ["C18"], "what": "generator-output-differs-likelysubtags", "source": "generate_likelysubtags",
+                      "detail": {"note": "re-running the repository's generator on data/likelySubtags.json does not reproduce src/likelysubtags/tables.rs"}})
+    a, b2 = _consts_as_sets(gen["generate_layout"]), _consts_as_sets(open(os.path.join(cwd, "src/layout_table.rs")).read())
+    if a != b2 or not a:
+        c.dis.append({"props": ["C18"], "what": "generator-output-differs-layout", "source": "generate_layout",
+                      "detail": {"generated": {k: v[0] for k, v in a.items()}, "checked_in": {k: v[0] for k, v in b2.items()}}})
+    c.extra_cov["generators_rerun"] = 2
+    c.extra_cov["table_entries"] = r["events"]
+    return c.finish(rule="every entry of the six likely-subtags tables and the four direction tables (dumped from the compiled statics through the cfg(unic_locale_verif) re-export) is one state of Tables.tla: decodes to canonical subtags, strictly increasing in integer key order, equals the entry derived in TLA+ from the JSON data; whole-dump set equality; both generators re-run and diffed",
+                    assumptions=ASSUME_COMMON, exhaustive=True)
+
+
+PLANS["C18"] = C18
+
+
+# ------------------------------------------------------------------------------------------------
+# C20: features are additive
+# ------------------------------------------------------------------------------------------------
+FEATURE_SETS = [(), ("likelysubtags",), ("serde",), ("macros",), ("likelysubtags", "serde"), ("likelysubtags", "macros"),
+                ("serde", "macros"), ("likelysubtags", "serde", "macros")]
+
+
+def C20(tier, seed):
+    c = Check("C20", tier, seed)
+    data_env()
+    n = 1500 if tier == "quick" else 8000
+    d = os.path.join(WORK, "traces")
+    os.makedirs(d, exist_ok=True)
+    drivers = ["parse", "hist-nolikely", "meta", "sub", "likely"]
+    logs = {}
+    for fs in FEATURE_SETS:
+        binp = build_harness(fs)
+        feats = json.loads(subprocess.run([binp, "features"], stdout=subprocess.PIPE, text=True).stdout)
+        for f in ("likelysubtags", "serde", "macros"):
+            if feats[f] != (f in fs):
+                raise ToolError("harness built with features %s reports %s" % (fs, feats))
+        for drv in drivers:
+            out = os.path.join(d, "C20-%s-%s.ndjson" % ("_".join(fs) or "none", drv))
+            engine.run_driver(binp, drv, seed, n, out)
+            if drv == "likely":
+                # the likely-subtags API itself is the additive part; direction events are compared
+                lines = [l for l in open(out) if '"op":"dir"' in l]
+                open(out, "w").writelines(lines)
+            logs[(fs, drv)] = out
+    jobs = []
+    for fs in FEATURE_SETS[1:]:
+        for drv in drivers:
+            jobs.append((fs, drv, logs[(fs, drv)], logs[((), drv)]))
+    def one(job):
+        fs, drv, a, b = job
+        r = engine.validate_trace("C20-pair-%s-%s" % ("_".join(fs), drv), a, module="TracePair", env_extra={"TRACE_A": a, "TRACE_B": b})
+        return r
+    with ThreadPoolExecutor(max_workers=10) as ex:
+        for r in ex.map(one, jobs):
+            c.add_trace(r)
+    # each configuration's own transcript is also a behaviour of the specification
+    for fs in (FEATURE_SETS[0], FEATURE_SETS[-1]) if tier == "quick" else FEATURE_SETS:
+        for drv in ("parse", "hist-nolikely"):
+            c.add_trace(engine.validate_trace("C20-spec-%s-%s" % ("_".join(fs) or "none", drv), logs[(fs, drv)]))
+    c.samples.append({"pair": "transcript of features=%s vs no features, driver parse" % (FEATURE_SETS[-1],),
+                      "first_event": open(logs[((), "parse")]).readline()[:300]})
+    c.extra_cov["feature_sets"] = ["+".join(fs) or "none" for fs in FEATURE_SETS]
+    return c.finish(rule="the same seeded drivers (parse, histories, metamorphic pairs, subtags, direction) run under all 8 feature sets of the facade+impl crates; each transcript is stepped in lock-step against the no-feature transcript by TracePair.tla: events identical, direction events related by the documented refinement; transcripts are also validated against Trace.tla",
+                    assumptions=ASSUME_COMMON + ["features reach the impl crates through the facades' feature forwarding, as a downstream user enables them"], exhaustive=False)
+
+
+PLANS["C20"] = C20
+
+
+# ------------------------------------------------------------------------------------------------
+# C16: compile-time macros equal run-time parsing
+# ------------------------------------------------------------------------------------------------
+def C16(tier, seed):
+    import macrogen, random
+    c = Check("C16", tier, seed)
+    data_env()
+    build_harness(ALL)
+    rnd = random.Random(seed)
+    cap = 400 if tier == "quick" else 2500
+    # the specification decides which literal is well formed and what it means
+    info1, li_cases = engine.collect_cases("C16-lits-li", "MC_LangId", dict(Depth=3, FullDepth=2, Small=True, Emit=True), LI_INV)
+    info2, loc_cases = engine.collect_cases("C16-lits-loc", "MC_Locale", dict(Depth=5, FullDepth=2, Small=True, Emit=True, Mode="loc"), LOC_INV)
+    info3, sub_cases = engine.collect_cases("C16-lits-sub", "MC_Subtags", dict(MaxLen=4, FullLen=2, Alpha="reduced", Emit=True), SUB_INV)
+    for nm, info in (("C16-lits-li", info1), ("C16-lits-loc", info2), ("C16-lits-sub", info3)):
+        c.models.append({"name": nm, "module": nm, "constants": {}, "tlc": info, "wall_s": 0, "disagreements": []})
+    def text_of(case):
+        toks = case["toks"]
+        bs = []
+        for i, t in enumerate(toks):
+            if i:
+                bs.append(0x2d)
+            bs += t
+        return bs
+    li_ok, li_bad, loc_ok, loc_bad = [], [], [], []
+    for cs in li_cases:
+        bs = text_of(cs)
+        if not macrogen.printable(bs):
+            continue
+        (li_ok if cs["li"]["ok"] else li_bad).append(macrogen.lit(bs))
+    for cs in loc_cases:
+        bs = text_of(cs)
+        if not macrogen.printable(bs):
+            continue
+        z = cs["loc"]["zone"]
+        if z == "accept":
+            loc_ok.append(macrogen.lit(bs))
+        elif z == "reject":
+            loc_bad.append(macrogen.lit(bs))
+    # odd case and '_' separators: the spec is case/separator blind (checked in MC_Meta), the macros must be too
+    def noisy(s):
+        return "".join((ch.upper() if rnd.random() < 0.3 else ch) if ch != "-" else ("_" if rnd.random() < 0.3 else "-") for ch in s)
+    sub_ok, sub_bad = [], []
+    kinds = ["language", "script", "region", "variant"]
+    for cs in sub_cases:
+        if not macrogen.printable(cs["s"]) or not cs["s"]:
+            continue
+        for i, k in enumerate(kinds):
+            (sub_ok if cs["is"][i] else sub_bad).append((k, macrogen.lit(cs["s"])))
+    def pick(xs, n):
+        xs = sorted(set(xs))
+        rnd.shuffle(xs)
+        return xs[:n]
+    li_ok_s = pick(li_ok, cap) + ["und", "UND", "en_US", "eN-lAtN-uS-VaLeNcIa", "und-Latn", "root"[:0] or "sr-Cyrl-RS-1abc-valencia"]
+    loc_ok_s = pick(loc_ok, cap)
+    loc_ok_s += [noisy(s) for s in loc_ok_s[: cap // 4]] + ["und", "en-t-h0-hybrid-u-ca-buddhist-x-foo", "en_US_u_hc_h12",
+                                                          "und-t-und-h0-hybrid", "en-u-ca-islamic-civil-t-de-AT-1996-k0-dvorak-x-a-b-c"]
+    li_ok_s += [noisy(s) for s in li_ok_s[: cap // 4]]
+    sub_ok_s = pick(sub_ok, cap // 2) + [("language", "und"), ("language", "UND"), ("script", "lATN"), ("region", "us"), ("variant", "1ABC")]
+    ok = macrogen.gen_ok_crate(li_ok_s, loc_ok_s, sub_ok_s)
+    c.extra_cov["programs"] = 2
+    c.extra_cov["macro_invocations_wellformed"] = ok["invocations"]
+    if not ok["built"]:
+        c.dis.append({"props": ["C16"], "what": "well-formed-literals-do-not-compile", "source": "macros_ok",
+                      "detail": {"log": ok["log"][-3000:]}})
+    else:
+        if ok["rc"] != 0:
+            c.dis.append({"props": ["C16", "C01"], "what": "macro-program-died", "source": "macros_ok", "detail": {"rc": ok["rc"]}})
+        r = engine.validate_trace("C16-macro-events", ok["trace"])
+        c.add_trace(r)
+        c.samples.append({"macro_event": open(ok["trace"]).readline()[:300]})
+    # ill-formed literals: a compile error at that invocation, and only there
+    bad = [("langid", s) for s in pick(li_bad, cap // 2)] + [("locale", s) for s in pick(loc_bad, cap // 2)]
+    bad += [({"language": "lang"}.get(k, k), s) for k, s in pick(sub_bad, cap // 4)]
+    good = [("langid", s) for s in li_ok_s[:20]] + [("locale", s) for s in loc_ok_s[:20]]
+    er = macrogen.gen_err_crate(bad, good)
+    c.extra_cov["macro_invocations_illformed"] = len(bad)
+    c.extra_cov["compile_errors_reported"] = er["errors"]
+    missing = [(ln, v) for ln, v in er["expect_err"].items() if ln not in er["err_lines"]]
+    spurious = [(ln, v) for ln, v in er["expect_ok"].items() if ln in er["err_lines"]]
+    if er["rc"] == 0 and bad:
+        c.dis.append({"props": ["C16"], "what": "ill-formed-literals-compile", "source": "macros_err", "detail": {"count": len(bad)}})
+    for ln, (mac, s) in missing[:20]:
+        c.dis.append({"props": ["C16"], "what": "no-compile-error-at-ill-formed-%s" % mac, "source": "macros_err",
+                      "detail": {"macro": mac, "literal": s, "line": ln}})
+    for ln, (mac, s) in spurious[:20]:
+        c.dis.append({"props": ["C16"], "what": "compile-error-at-well-formed-%s" % mac, "source": "macros_err",
+                      "detail": {"macro": mac, "literal": s, "line": ln}})
+    c.samples.append({"ill_formed_literal": bad[0] if bad else None, "compile_error_lines": len(er["err_lines"])})
+    return c.finish(level="model_checking",
+                    rule="literals and their meaning come from the TLC case streams (language-identifier, locale and subtag models, printable subset, plus odd-case/underscore variants); program A evaluates langid!/lang!/script!/region!/variant!/locale!/langids!/langid_slice!/locales! on well-formed literals and its events are validated by Trace.tla against ParseLI/ParseLoc; program B holds ill-formed literals one per line and must produce a compiler error attributed (through the diagnostic's expansion chain) to every such line and to no control line",
+                    assumptions=ASSUME_COMMON + ["compile errors are observed through cargo's JSON diagnostics; TLC sees only their outcome"],
+                    exhaustive=False)
+
+
+PLANS["C16"] = C16
